@@ -2,6 +2,7 @@
 package dec
 
 import (
+	"bytes"
 	"context"
 	stdjson "encoding/json"
 	"fmt"
@@ -46,6 +47,36 @@ func (r *oneByteReader) Read(p []byte) (int, error) {
 	p[0] = r.b[r.i]
 	r.i++
 	return 1, nil
+}
+
+func compactOK(b string) bool {
+	var d bytes.Buffer
+	return gojson.Compact(&d, []byte(b)) == nil
+}
+
+func init() {
+	known.Witnesses["FX-UTIL-number-grammar"] = func() (bool, string) {
+		return compactOK("[01]") || compactOK("[1.]") || !compactOK("1e380"), "Compact number grammar"
+	}
+	known.Witnesses["FX-UTIL-compact-duplicates-dst"] = func() (bool, string) {
+		var d bytes.Buffer
+		d.WriteString("abc")
+		err := gojson.Compact(&d, []byte(` {"a" : 1} `))
+		return err != nil || d.String() != `abc{"a":1}`, fmt.Sprintf("out=%q err=%v", d.String(), err)
+	}
+	known.Witnesses["FX-UTIL-nul-ends-text"] = func() (bool, string) { return compactOK("[1]\x00x"), "Compact([1]<NUL>x)" }
+	known.Witnesses["FX-UTIL-indent-trailing-space"] = func() (bool, string) {
+		var d bytes.Buffer
+		err := gojson.Indent(&d, []byte(" [1,2] \n "), "", " ")
+		return err != nil || !strings.HasSuffix(d.String(), "] \n "), fmt.Sprintf("out=%q err=%v", d.String(), err)
+	}
+	known.Witnesses["FX-UTIL-depth-limit"] = func() (bool, string) {
+		deep := func(n int) string { return strings.Repeat("[", n) + strings.Repeat("]", n) }
+		return compactOK(deep(10001)) || !compactOK(deep(10000)), "Compact depth limit"
+	}
+	known.Witnesses["KF-C05-valid-float-range"] = func() (bool, string) { return !gojson.Valid([]byte("1e999")), "Valid(1e999)" }
+	known.Witnesses["KF-C05-stream-separator-skipped"] = func() (bool, string) { return gojson.Valid([]byte(",0")), "Valid(,0)" }
+	known.Witnesses["KF-C05-stream-nul-ends-input"] = func() (bool, string) { return gojson.Valid([]byte("1\x00x")), "Valid(1<NUL>x)" }
 }
 
 func init() {
